@@ -98,9 +98,13 @@ int path::del()
 {
 	return mpt_path_del(this);
 }
-int path::add(int)
+int path::add(int count)
 {
-	return mpt_path_add(this, len);
+	// default: all pending data
+	if (count < 0 && (count = mpt_path_valid(this)) < 0) {
+		return count;
+	}
+	return mpt_path_add(this, count);
 }
 bool path::next()
 {
